@@ -330,6 +330,9 @@ def r8(fx):
               {'dark': (255, 0, 0, 128), 'light': '#fff'}, {'separator': 'red', 'light': '#fff'}, {'dark_module': 'blue'},
               {'alignment_dark': 'red', 'alignment_light': 'yellow', 'version_dark': 'blue', 'version_light': '#eee', 'light': '#fff'}]
     combos += [dict(kw, light=kw.get('light', '#fff')) for kw in p09.CROSSED]
+    # alpha channels, including the two ends of the range (fully transparent = not painted, fully opaque)
+    combos += [{'dark': (255, 0, 0, 0), 'light': '#fff'}, {'dark': '#000', 'light': '#ffffff00'}, {'dark': (0, 0, 255, 0.0), 'light': (255, 255, 255, 1.0)},
+               {'dark': '#0000ff80', 'light': '#fff'}, {'dark': (0, 0, 0, 255), 'light': (255, 255, 0, 1.0)}, {'finder_dark': '#ff000000', 'light': '#fff'}]
     for size, border in (((21, 21), None), ((11, 11), 1), ((45, 45), 0)):
         for kw in combos:
             if size[0] == 45 and not ({'alignment_dark', 'finder_dark'} & set(kw) or not kw):
@@ -347,6 +350,7 @@ def r8(fx):
                     attrs, transforms, paths = render.decode_svg(rec.text(), names)
                     grid = render.paint_svg(paths, n, n, names)
                     want = render.picture(m, size, 1, border, value=lambda r, c, v: p09.rgba(cm[ty(r, c, v)]), outside=p09.rgba(cm[qz]))
+                    want = [[(0, 0, 0, 0) if p[3] == 0 else p for p in r_] for r_ in want]
                     got = [[(0, 0, 0, 0) if (p is None or p[3] == 0) else p for p in r_] for r_ in grid]
                     why = render.first_diff(got, want)
                     if not why and calls and calls != [('matrix_to_lines', b, b + .5, 1, True)]:
